@@ -1047,6 +1047,15 @@ impl<'de> serde::de::Visitor<'de> for ParsedValueSeed<'_> {
         }
         let ranges = Ranges::from_serde_seq(map, self)?;
 
+        let mut is_empty = true;
+        let _ = ranges.try_for_each_value::<_, core::convert::Infallible>(|_| {
+            is_empty = false;
+            Ok(())
+        });
+        if is_empty {
+            return Err(serde::de::Error::custom(Error::EmptyRange));
+        }
+
         let (invalid_fallback, fallback_count, should_have_fallback) =
             ranges.check_deserialization();
 
